@@ -27,7 +27,7 @@ Mutators  == {"add", "discard", "update", "intersection_update",
               "difference_update", "invert_update", "clear"}
 Builders  == {"union", "intersection", "difference", "invert", "copy"}
 Queries   == {"contains", "len", "iter", "first", "last", "before", "after",
-              "isdisjoint", "bool"}
+              "isdisjoint", "bool", "eq"}
 
 Put(S, r, V) == IF r \in DOMAIN S THEN [S EXCEPT ![r] = V] ELSE S @@ (r :> V)
 
@@ -69,6 +69,7 @@ Res(S, e) ==
        [] e.op = "before"     -> MaxOr({x \in A : x < e.n})
        [] e.op = "after"      -> MinOr({x \in A : x > e.n})
        [] e.op = "isdisjoint" -> (A \cap B = {})
+       [] e.op = "eq"         -> (A = B)             \* two id sets are equal iff they hold the same ids
        [] e.op = "bool"       -> (A # {})
        [] OTHER               -> 0
 
@@ -81,7 +82,7 @@ Pre(S, e) ==
   /\ e.op \in {"invert", "invert_update"} => S[e.o] \subseteq 0 .. e.n - 1
   /\ e.op \in {"first", "last"} => S[e.o] # {}
   /\ e.op \in {"intersection_update", "difference_update", "union", "intersection",
-               "difference", "isdisjoint"} => e.p \in DOMAIN S
+               "difference", "isdisjoint", "eq"} => e.p \in DOMAIN S
 
 \* ---- design model ------------------------------------------------------------
 VARIABLES s, ev, k
@@ -100,7 +101,7 @@ Calls(S) ==
          n : 0 .. U - 1, xs : {<<>>}, r : {0}]
    \cup [op : {"update"}, o : objs, p : {0}, n : {0},
          xs : {<<>>, <<0>>, <<U - 1, 1>>, <<2, 2, 0>>}, r : {0}]
-   \cup [op : {"intersection_update", "difference_update", "isdisjoint"}, o : objs,
+   \cup [op : {"intersection_update", "difference_update", "isdisjoint", "eq"}, o : objs,
          p : objs, n : {0}, xs : {<<>>}, r : {0}]
    \cup [op : {"invert_update"}, o : objs, p : {0}, n : {0, U - 1, U}, xs : {<<>>}, r : {0}]
    \cup [op : {"clear", "len", "iter", "first", "last", "bool"}, o : objs, p : {0},
